@@ -367,7 +367,7 @@ func Main(t *testing.T) {
 		sigSeen[v.Sig] = true
 		minStart := time.Now()
 		test := func(cand []uint32) bool {
-			if time.Since(minStart) > 90*time.Second {
+			if time.Since(minStart) > minimiseWall {
 				return false
 			}
 			lastProgress.touch()
@@ -426,6 +426,9 @@ func lastN(s []string, n int) []string {
 }
 
 var realStdout = os.Stdout
+
+// minimiseWall bounds the real time spent shrinking one violation.
+var minimiseWall = time.Duration(envInt("VERIF_MINIMISE_S", 20)) * time.Second
 
 // quietStdout points os.Stdout at /dev/null: the code under test prints a lot.
 func quietStdout() {
